@@ -4,6 +4,10 @@ use crate::core::*;
 use crate::gen::*;
 use std::sync::Mutex;
 
+pub fn g_opts_types_pub() -> GenOpts {
+    g_opts_types()
+}
+
 fn g_opts_types() -> GenOpts {
     GenOpts { modules: (1, 3), assigns: (1, 9), max_depth: 4, max_comps: 12, values: false, defaults: true, ..GenOpts::default() }
 }
@@ -380,5 +384,10 @@ pub fn run_c03(ctx: &Ctx) -> Report {
     });
     let rep = acc.into_inner();
     let n = ctx.pick(3_000u64, 60_000);
-    cmodel::run_random(ctx, "C03", 300, n, &g_opts_types(), rep)
+    let mut rep = cmodel::run_random(ctx, "C03", 300, n, &g_opts_types(), rep);
+    // DER level (O6): the generated bindings decode model-made DER bytes of sample values and encode them back
+    if std::env::var("VERIF_NO_DER").is_err() {
+        crate::c03der::run(ctx, &mut rep);
+    }
+    rep
 }
